@@ -761,36 +761,81 @@ func (sc *Scenario) writeWeather(dir string) error {
 		}
 	case 1:
 		var b strings.Builder
-		hdr := "iso-date,tmin,tavg,tmax,precip,globrad,wind,relhumid"
+		// the multi-year CSV is header-driven: 40 % of the files have their columns in another order, up to two further
+		// columns the model does not know (single-word names) anywhere, and / or one last column with a two-word name whose
+		// first word repeats a known name ("wind gust", "tmax corrected": the header is also split at blanks, the data rows are
+		// not, so such a column is only legal at the end, behind the real one)
+		type wcol struct {
+			name string
+			val  func(d *WeatherDay) string
+		}
+		cols := []wcol{
+			{"iso-date", func(d *WeatherDay) string { return d.D.String() }},
+			{"tmin", func(d *WeatherDay) string { return f1(d.Tmin) }},
+			{"tavg", func(d *WeatherDay) string {
+				if d.NoneTavg {
+					return sc.noneStr()
+				}
+				if w.ExactTavg {
+					return fmtG(d.Tavg)
+				}
+				return f1(d.Tavg)
+			}},
+			{"tmax", func(d *WeatherDay) string { return f1(d.Tmax) }},
+			{"precip", func(d *WeatherDay) string { return sc.precipStr(*d) }},
+			{"globrad", func(d *WeatherDay) string { return sc.globStr(*d) }},
+			{"wind", func(d *WeatherDay) string { return f1(d.Wind) }},
+			{"relhumid", func(d *WeatherDay) string { return f1(d.RH) }},
+		}
 		if w.HasSun {
-			hdr += ",sunhours"
+			cols = append(cols, wcol{"sunhours", func(d *WeatherDay) string {
+				if d.NoneSun {
+					return sc.noneStr()
+				}
+				return f1(d.Sun)
+			}})
 		}
 		if w.HasVerd {
-			hdr += ",verd"
-		}
-		sc.weatherHeader(&b, hdr, "-,C,C,C,mm,MJ m-2,m s-1,%")
-		for _, d := range w.Days {
-			tavg := f1(d.Tavg)
-			if w.ExactTavg {
-				tavg = fmtG(d.Tavg)
-			}
-			if d.NoneTavg {
-				tavg = sc.noneStr()
-			}
-			fmt.Fprintf(&b, "%s,%s,%s,%s,%s,%s,%s,%s", d.D.String(), f1(d.Tmin), tavg, f1(d.Tmax), sc.precipStr(d), sc.globStr(d), f1(d.Wind), f1(d.RH))
-			if w.HasSun {
-				if d.NoneSun {
-					b.WriteString("," + sc.noneStr())
-				} else {
-					b.WriteString("," + f1(d.Sun))
-				}
-			}
-			if w.HasVerd {
+			cols = append(cols, wcol{"verd", func(d *WeatherDay) string {
 				if d.NoneVerd {
-					b.WriteString("," + sc.noneStr())
-				} else {
-					b.WriteString("," + f1(d.Verd))
+					return sc.noneStr()
 				}
+				return f1(d.Verd)
+			}})
+		}
+		if rw := NewRng(mix(mix(sc.Seed, uint64(sc.Index)), 8383)); rw.Bool(0.4) {
+			if rw.Bool(0.7) {
+				for k := len(cols) - 1; k > 0; k-- {
+					o := rw.Intn(k + 1)
+					cols[k], cols[o] = cols[o], cols[k]
+				}
+			}
+			for k, n := 0, rw.Range(0, 2); k < n; k++ {
+				name := pickS(rw, []string{"snow", "cloud", "station", "dewpoint", "Wind10", "TMAXraw"})
+				off := rw.Uniform(5, 60)
+				at := rw.Intn(len(cols) + 1)
+				cols = append(cols, wcol{})
+				copy(cols[at+1:], cols[at:])
+				cols[at] = wcol{name, func(d *WeatherDay) string { return f1(d.Tmax + off) }}
+			}
+			if rw.Bool(0.4) {
+				name := pickS(rw, []string{"wind gust", "tmax corrected", "precip raw", "globrad clear", "tmin grass"})
+				cols = append(cols, wcol{name, func(d *WeatherDay) string { return f1(d.Wind + 37.5) }})
+			}
+		}
+		var names, units []string
+		for _, c := range cols {
+			names = append(names, c.name)
+			units = append(units, "-")
+		}
+		sc.weatherHeader(&b, strings.Join(names, ","), strings.Join(units, ","))
+		for di := range w.Days {
+			d := &w.Days[di]
+			for ci, c := range cols {
+				if ci > 0 {
+					b.WriteString(",")
+				}
+				b.WriteString(c.val(d))
 			}
 			b.WriteString("\n")
 		}
